@@ -22,7 +22,7 @@ ASSUMPTIONS = [
     'std::io::Write::write_all writes all bytes or fails (library contract)',
 ]
 MANIFEST = {'text': 'proof of: header layout agreement between writer and reader; every preserved field (reception time, ecu, timestamp and its presence, mcnt, endianness, extended header, payload) '
-                    'reaches a write sink; time split/join use one constant; convert -o writes exactly the messages it also selects for display, through to_write only. Added: readers never add to the 16-bit length field in u16 (largest messages re-read completely); the writer\'s htyp/length table over all 32 valuations of byte order and optional parts agrees with the readers.'}
+                    'reaches a write sink; time split/join use one constant; convert -o writes exactly the messages it also selects for display, through to_write only. Added: readers never add to the 16-bit length field in u16 (largest messages re-read completely); the writer\'s htyp/length table over all 32 valuations of byte order and optional parts agrees with the readers. Added: the export file is opened empty (File::create / truncate(true) / create_new(true)). Added: all messages of an export go to one writer (no second write path that can overtake buffered messages). Added: the storage header seconds / microseconds written are exactly the quotient / remainder of the reception time (no clamp, mask or offset). Added: id bytes are read verbatim (DltChar4::from_buf); every successful return of DltMessage::to_write lies behind the standard-header encoder, or the bytes written on a path around it draw htyp, counter, timestamp, extended header fields and payload from the message.'}
 
 WRITERS = {
     'adlt::dlt::DltStorageHeader::from_msg': ('agg', {'reception_time_us', 'ecu'}),
@@ -87,7 +87,7 @@ def fields_read_into(body, cfg, pr, operands):
 def run(F, chk):
     H1 = chk.rule('H1', 'header layout agreement between DltStandardHeader::to_write and the readers (size, htyp bit, emission order per optional part)')
     W1 = chk.rule('W1', 'every field the round trip must preserve flows into a write sink of the writer chain')
-    W2 = chk.rule('W2', 'storage time: from_msg divides and takes the remainder by the same constant that reception_time_us multiplies by')
+    W2 = chk.rule('W2', 'storage time: from_msg divides and takes the remainder by the same constant that reception_time_us multiplies by, and writes exactly that quotient / remainder (no clamp, mask or offset)')
     W3 = chk.rule('W3', 'convert -o: the output file is written only through DltMessage::to_write(current message), under the same window conditions and lifecycle filter as the screen output')
     hdrtab.check(F, H1)
     for name, (kind, need) in WRITERS.items():
@@ -146,6 +146,14 @@ def run(F, chk):
     check_verbatim_copies(F, W5)
     W6 = chk.rule('W6', 'readers: the 16-bit length field of the standard header is widened before anything is added to it (16 + len can exceed u16 for the largest messages the writer emits)')
     check_len_widened(F, W6)
+    W8 = chk.rule('W8', 'convert: the export file is opened empty (File::create, or OpenOptions with truncate(true) / create_new(true)) - never over existing content')
+    check_output_truncated(F, W8)
+    W9 = chk.rule('W9', 'convert: all messages of an export are written to one and the same writer (no second path that can overtake buffered messages)')
+    check_single_writer(F, W9)
+    W11 = chk.rule('W11', 'DltMessage::to_write: every path to a successful return goes through the header encoders; a path that writes headers itself (fast path) draws htyp, counter, timestamp, extended header fields and payload from the message')
+    check_single_encoder(F, W11)
+    W10 = chk.rule('W10', 'id bytes: DltChar4::from_buf stores the four id bytes verbatim (what is read is what is written back)')
+    hdrtab.check_id_bytes_verbatim(F, W10)
     W7 = chk.rule('W7', 'convert: the file reader feeding the export keeps a whole maximal message of look-ahead (low mark >= DLT_MAX_STORAGE_MSG_SIZE, capacity >= low mark + cache line)')
     import c04
     maxmsg = F.consts.get('adlt::dlt::DLT_MAX_STORAGE_MSG_SIZE', {}).get('v')
@@ -228,6 +236,56 @@ def check_endian_bit(F, W1):
     W1.ok(sample={'byte_order_bit': BIT, 'bit_setting_stores': [x[2] for x in setters], 'all_under': 'is_big_endian() == true', 'htyp_stores': n_stores})
 
 
+def check_single_encoder(F, W11):
+    """The layout table (H1), the byte-order bit and the field flow (W1) are decided for DltStandardHeader::to_write.  They say
+    nothing about bytes that DltMessage::to_write emits on a path around that encoder.  Must-pass-through: a block that
+    produces the successful return value is not reachable from the entry without the encoder call - or, if it is, the data
+    written directly on that path must draw every preserved field from the message (a constant htyp drops the byte-order
+    bit of every big-endian message that takes the fast path)."""
+    b = F.get('adlt::dlt::DltMessage::to_write')
+    if b is None:
+        W11.violation(('anchor-lost', 'DltMessage::to_write'), 'DltMessage::to_write not found')
+        return
+    W11.fn(b.path)
+    cfg = CFG(b)
+    enc = set(blk.i for blk in b.calls() if blk.term.callee.path.endswith('DltStandardHeader::to_write'))
+    W11.floor('calls of the standard header encoder in DltMessage::to_write', len(enc), 1)
+    oks = []
+    for blk in b.blocks:
+        if blk.cleanup:
+            continue
+        for s in blk.stmts:
+            if s.k == 'assign' and s.place.is_local and s.place.l == 0 and not s.place.p and s.rv['k'] == 'agg' and s.rv.get('variant') == 'Ok':
+                oks.append(blk.i)
+        if blk.term.k == 'call' and blk.term.dest.is_local and blk.term.dest.l == 0 and not blk.term.dest.p and blk.i not in enc and not blk.term.callee.path.endswith('::from_residual'):
+            oks.append(blk.i)
+    W11.floor('successful-return definitions of DltMessage::to_write', len(oks), 1)
+    around = cfg.reachable_from(0, avoid=enc)
+    bypass = [x for x in oks if x in around]
+    W11.sites += len(oks)
+    if not bypass:
+        W11.ok(sample={'writer': b.path, 'successful_returns': len(oks), 'all_behind': 'DltStandardHeader::to_write'})
+        return
+    pr = Prov(cfg)
+    ops = []
+    for blk in b.calls():
+        p = blk.term.callee.path
+        if blk.i in around and re.search(r'Write::(write_all|write|write_vectored|write_fmt)$', p):
+            ops += blk.term.args[1:]
+        # bytes staged in a local buffer: what is copied / pushed into it is written with it
+        if blk.i in around and re.search(r'::(copy_from_slice|clone_from_slice|extend_from_slice|push|extend|put_slice)$', p):
+            ops += blk.term.args[1:]
+    have = fields_read_into(b, cfg, pr, ops)
+    need = {'htyp', 'mcnt', 'timestamp_dms', 'payload', 'verb_mstp_mtin', 'noar', 'apid', 'ctid'}
+    missing = sorted(need - have)
+    where = b.loc(b.blocks[bypass[0]].term.sp)
+    if missing:
+        W11.violation(('encoder-bypass-drops-field', b.path, '+'.join(missing)), 'DltMessage::to_write can return successfully at %s without going through DltStandardHeader::to_write, and what it writes itself on that path does not draw %s from the message: '
+                      'those header bits / fields of such messages do not survive the export (e.g. a constant htyp loses the byte order)' % (where, ', '.join(missing)), where=where)
+    else:
+        W11.ok(sample={'writer': b.path, 'bypass_at': where, 'fields_drawn_from_the_message': sorted(need)})
+
+
 def check_time_split(F, W2):
     fm = F.get('adlt::dlt::DltStorageHeader::from_msg')
     rt = F.get('adlt::dlt::DltStorageHeader::reception_time_us')
@@ -251,6 +309,31 @@ def check_time_split(F, W2):
                                     consts.setdefault(x[1].replace('WithOverflow', ''), set()).add(v)
     W2.sites += sum(len(v) for v in consts.values())
     vals = set().union(*consts.values()) if consts else set()
+    # the written seconds / microseconds are the plain quotient / remainder of the message's reception time: the reader takes all
+    # 32 bits of both fields, so any clamp, mask or offset on the writer's side (saturate at i32::MAX, ..) changes the time of
+    # some representable message
+    E = ExprBuilder(CFG(fm), fold_named=True)
+    shapes = {}
+    for blk in fm.blocks:
+        if blk.cleanup:
+            continue
+        for s in blk.stmts:
+            if s.k == 'assign' and s.rv['k'] == 'agg' and s.rv.get('adt', '').endswith('DltStorageHeader'):
+                for fname, op in (('secs', 'Div'), ('micros', 'Rem')):
+                    if fname not in s.rv.get('fields', []):
+                        continue
+                    e = E.operand(Operand(s.rv['ops'][s.rv['fields'].index(fname)]))
+                    while isinstance(e, tuple) and e[0] == 'cast':
+                        e = e[1]
+                    good = isinstance(e, tuple) and e[0] == 'bin' and e[1] == op and re.search(r'\.reception_time_us\)?$', show(e[2])) is not None and hdrtab.fold(e[3]) in vals
+                    shapes[fname] = (good, show(e)[:90])
+    W2.sites += 2
+    for fname in ('secs', 'micros'):
+        if fname not in shapes:
+            W2.violation(('time-field-anchor', fname), 'from_msg does not construct DltStorageHeader.%s' % fname, where=fm.loc(None))
+        elif not shapes[fname][0]:
+            W2.violation(('time-field-not-verbatim', fname), 'from_msg writes %s = %s, not the plain %s of reception_time_us by the time constant: the reader takes the full 32 bit field, so the reception time of some message changes on export'
+                         % (fname, shapes[fname][1], 'quotient' if fname == 'secs' else 'remainder'), where=fm.loc(None))
     if set(consts) >= {'Div', 'Rem', 'Mul'} and len(vals) == 1:
         W2.ok(sample={'split': 'secs = t / K, micros = t %% K', 'join': 'secs * K + micros', 'K': sorted(vals)[0]})
     else:
@@ -453,3 +536,78 @@ def check_len_widened(F, W6):
                          're-reading an exported message no longer consumes exactly the bytes written' % (b.path, b.loc(s.sp)), where=b.loc(s.sp))
     else:
         W6.ok(sample={'reads_of_the_length_field': n_reads, 'u16_additions_on_it': 0})
+
+
+# ---------------------------------------------------------------------------------------------
+# W8: the export starts from an empty file
+
+def check_output_truncated(F, W8):
+    """"the written file contains exactly the exported messages": the file given with -o may exist.  File::create truncates it; an
+    OpenOptions chain does so only with .truncate(true) (or refuses an existing file with create_new(true)).  write(true) +
+    create(true) alone overwrites from offset 0 and leaves the tail of the old content behind the new messages.  Over the convert
+    module of the binary: every file opened for writing is opened by File::create / create_new, or by an OpenOptions chain that
+    contains truncate(true) or create_new(true) (append(true) is a different feature and not accepted either)."""
+    n = 0
+    for b in F.order:
+        if b.crate != 'bin' or not (b.closure_of or b.path).startswith('adlt_bin::convert::') or '::tests::' in b.path:
+            continue
+        cfg = E = None
+        for blk in b.calls():
+            t = blk.term
+            p = t.callee.path
+            if p in ('std::fs::File::create', 'std::fs::File::create_new'):
+                n += 1
+                W8.sites += 1
+                W8.fn(b.path)
+                W8.ok(sample={'opened_at': b.loc(t.sp), 'by': p.split('::')[-1], 'starts_empty': True})
+            elif p == 'std::fs::OpenOptions::open':
+                cfg = cfg or CFG(b)
+                E = E or ExprBuilder(cfg, fold_named=True)
+                chain = show(E.operand(t.args[0]))
+                writes = 'OpenOptions::write(' in chain or 'OpenOptions::append(' in chain or 'OpenOptions::create(' in chain
+                if not writes:
+                    continue
+                n += 1
+                W8.sites += 1
+                W8.fn(b.path)
+                if re.search(r'OpenOptions::(truncate|create_new)\([^()]*(\([^()]*\)[^()]*)*, 1\)', chain) or re.search(r'OpenOptions::(truncate|create_new)\(.*, 1\)', chain):
+                    W8.ok(sample={'opened_at': b.loc(t.sp), 'by': 'OpenOptions with truncate/create_new', 'starts_empty': True})
+                else:
+                    W8.violation(('output-not-truncated', b.closure_of or b.path), '%s opens a file for writing at %s through %s without truncate(true)/create_new(true): an existing longer file keeps its old tail behind the exported messages' %
+                                 (b.path, b.loc(t.sp), chain[:90]), where=b.loc(t.sp))
+    W8.floor('files opened for writing in convert', n, 1)
+
+
+# ---------------------------------------------------------------------------------------------
+# W9: one writer per export
+
+def check_single_writer(F, W9):
+    """"preserves every message, in order": the export keeps the input order because every message goes through the same writer
+    in loop order.  Two sinks (a block buffer for small messages, the file itself for large ones) only keep the order if
+    the buffer is flushed before every direct write - a second writer root is flagged, whatever flushing is intended.  Per
+    body of the convert module: the writer operands of all DltMessage::to_write calls denote one place."""
+    n = 0
+    for b in F.order:
+        if b.crate != 'bin' or not (b.closure_of or b.path).startswith('adlt_bin::convert::') or '::tests::' in b.path:
+            continue
+        sites = [blk for blk in b.calls() if blk.term.callee.path.endswith('DltMessage::to_write') and len(blk.term.args) > 1]
+        if not sites:
+            continue
+        cfg = CFG(b)
+        roots = {}
+        for blk in sites:
+            n += 1
+            W9.sites += 1
+            r = cfg.origin_of_operand(blk.term.args[1])
+            key = (r.key() if r is not None else ('?', blk.i))
+            # a writer reached through an Option / Result payload of the same local is the same writer
+            key = tuple(k for k in key if not (isinstance(k, tuple) and k and k[0] in ('dc', 'deref'))) if isinstance(key, tuple) else key
+            roots.setdefault(key, []).append(blk)
+        W9.fn(b.path)
+        if len(roots) <= 1:
+            W9.ok(sample={'function': b.path, 'to_write_sites': len(sites), 'writer_roots': 1})
+        else:
+            locs = [b.loc(v[0].term.sp) for v in roots.values()]
+            W9.violation(('two-writers', b.closure_of or b.path), '%s writes messages to %d different writers (%s): a message written to one of them can overtake messages still pending in the other - the export is no longer in input order' %
+                         (b.path, len(roots), ', '.join(locs[:3])), where=locs[1])
+    W9.floor('to_write sites in convert', n, 1)
